@@ -1269,6 +1269,11 @@ def rule_layout_dispatch(model: Model, rule_id: str = 'C15-R7') -> RuleResult:
                     lits = [('' if truth else 'not ') + text for (_g, text, truth) in gov]
                     extra = [x for x in lits if not any(re.fullmatch('(not )?' + pat, x) for pat in allowed[layout])]
                     need = f"'{layout}' in self.opts.in_format"
+                    if extra and all(any(re.fullmatch('(not )?' + pat, x) for pats in allowed.values() for pat in [*pats, r"None in self\.opts\.in_format"])
+                                     for x in extra) and reach.implied(n, need, True):
+                        # a compound test over the kinds and the enabled layouts (`layout in in_format` with the layout classified
+                        # beforehand): nothing but kind and in_format is consulted, and the reader's own layout is enabled on every path
+                        extra = []
                     r.sample({'reader': f"{mname}_{layout}", 'reached when': lits})
                     if extra:
                         r.fail(f.qualname, f"{layout} reader also depends on {extra[0][:80]}", f.loc(c),
